@@ -239,9 +239,10 @@ class StmtMixin(object):
         if fr.contract is not None and fr.is_contract_frame:
             return k, fr.contract.loops.get(k)
         if fr.fn is not None:
-            c = REG.contracts.get(self.frame_qualname(fr))
-            if c is not None:
-                return k, c.loops.get(k)
+            q = self.frame_qualname(fr)
+            for c in REG.contracts.values():
+                if c.qualname == q and c.loops:
+                    return k, c.loops.get(k)
         return k, None
 
     def st_While(self, s):
